@@ -38,6 +38,8 @@ THEOREMS = [
     "C03_written",
     "C03_written_all",
     "C03_shared_write_refuted",
+    "C03_universe_keeps_mark",
+    "C03_claim_keeps_mark",
     "exec_refines",
     "plan_targets",
 ]
@@ -149,7 +151,7 @@ ROTS = [
 
 KINDS = [
     "cellNumber", "surfNumber", "matNumber", "trNumber", "uniNumber", "material", "atomDensity", "massDensity",
-    "importance", "importance", "importanceAll", "volume", "delVolume", "lattice", "delLattice", "universe", "notTruncated",
+    "importance", "importance", "importanceAll", "volume", "delVolume", "lattice", "delLattice", "universe", "claim", "notTruncated",
     "fillUniverse", "fillTransform", "surfConstants", "location", "radius", "coordinates", "reflecting", "white",
     "surfTransform", "periodic", "fraction", "laws", "addThermal", "displacement", "rotation", "inDegrees", "mainToAux",
     "modeAdd", "modeRemove", "modeSet", "title",
@@ -238,6 +240,13 @@ def gen_edit(rng, p, kinds=None, hint=None, standalone=False):
             if not C[i].not_truncated and C[i].universe.number != 0 and rng.random() < 0.3:
                 return [["notTruncated", i, True], [k, i, j]]
             return [[k, i, j]]
+        if k == "claim" and C and U:
+            # universe.py:Universe.claim with a list of cells (marked and unmarked ones, cells already in the universe too)
+            j = rng.randrange(len(U))
+            n = rng.randint(1, min(3, len(C)))
+            first = pick(range(len(C)))
+            cells = [first] + [i for i in rng.sample(range(len(C)), n) if i != first][: n - 1]
+            return [[k, j, cells]]
         if k == "notTruncated" and C:
             i = pick(range(len(C)))
             b = rng.random() < 0.6
